@@ -794,6 +794,11 @@ func (s *State) applyFunction(name string, fn object.Object, args []object.Objec
 		log.Debugf("Cache miss for %s %v, not caching error result", function.CacheKey, args)
 		return res
 	}
+	// Nor anything once the evaluation was cancelled or ran out of time: the cancellation error can have been absorbed (catch).
+	if s.Context != nil && s.Context.Err() != nil {
+		log.Debugf("Cache miss for %s %v, evaluation was cancelled", function.CacheKey, args)
+		return res
+	}
 	// Nor what was computed (partly) before a function or constant was replaced during the call: the cache has been reset since.
 	if s.cacheEpoch != epochAtCall || s.rootEnv.Epoch() != epochAtCall {
 		log.Debugf("Cache miss for %s %v, definitions changed during the call", function.CacheKey, args)
